@@ -12,11 +12,11 @@ import (
 	"net"
 	"runtime"
 	"sort"
+	"strings"
 	"sync"
 	"time"
 
 	mqtt "github.com/mochi-mqtt/server/v2"
-	"github.com/mochi-mqtt/server/v2/hooks/auth"
 	"github.com/mochi-mqtt/server/v2/listeners"
 	"github.com/mochi-mqtt/server/v2/packets"
 	"github.com/mochi-mqtt/server/v2/system"
@@ -416,10 +416,22 @@ func skipHistory(out *sx.Out, what string) {
 
 const rsListener = "t"
 
+// rsAuthHook lets every client connect and refuses reading or writing topics / filters under "deny/".
+type rsAuthHook struct{ mqtt.HookBase }
+
+func (h *rsAuthHook) ID() string { return "rs-auth" }
+func (h *rsAuthHook) Provides(b byte) bool {
+	return b == mqtt.OnConnectAuthenticate || b == mqtt.OnACLCheck
+}
+func (h *rsAuthHook) OnConnectAuthenticate(cl *mqtt.Client, pk packets.Packet) bool { return true }
+func (h *rsAuthHook) OnACLCheck(cl *mqtt.Client, topic string, write bool) bool {
+	return !strings.HasPrefix(topic, "deny/")
+}
+
 func newRsBroker(hook mqtt.Hook, cfg any, limit int) (*rsBroker, error) {
 	opts := &mqtt.Options{Logger: stLogger}
 	s := mqtt.New(opts)
-	if err := s.AddHook(new(auth.AllowHook), nil); err != nil {
+	if err := s.AddHook(new(rsAuthHook), nil); err != nil {
 		return nil, err
 	}
 	b := &rsBroker{srv: s}
